@@ -14,18 +14,24 @@ LEVEL = "exploration"
 SHARDS = 16
 RULE = (
     "Per executor class (DockerExecutor, AWSBatchExecutor, K8SExecutor, GCPBatchExecutor, "
-    "AWSGlueExecutor; real _submit/submit, _start, _monitor, stop, _process_* code, cloud API "
-    "replaced by an in-process job table) a 'scheduler' thread runs a script of submit/wait-for-"
-    "report operations while the executor's own monitor (and, for Glue, submission) thread polls; "
-    "the interleaver owns the schedule at source-line granularity of those functions. Scenarios: "
-    "chain (submit 1, wait for its report, submit 2) and burst (submit 1, submit 2); thorough = every "
-    "schedule with <= 2 preemptions of both 2-job scenarios per executor plus Hypothesis-drawn scripts "
-    "over 3 jobs (generated poll counts / FAILED statuses) with <= 4 preemptions; quick = all <= 1 "
-    "preemption schedules, every 2-preemption schedule whose second preemption falls inside a "
-    "poller's exit window, and a seeded sample of the rest. Oracle at quiescence: every submitted job "
-    "has exactly one done_job/reject_job, no reject_job(None, error) from a poller, no exception "
-    "escaping submit or a thread, nothing left in a pending map. Non-trivial = a step of a "
-    "submission executed while a poller thread was between its failed loop test and its end."
+    "AWSGlueExecutor; real submit/_submit, _start, _monitor, stop, _process_*, for Glue also "
+    "_submission_thread/submit_pending_job; the cloud/container API replaced by an in-process job "
+    "table) a 'scheduler' thread runs a script of submit / wait-for-report / think-time operations "
+    "while the executor's own monitor (and Glue submission) threads poll; the interleaver owns the "
+    "schedule at source-line granularity of those functions, and a poller's sleep may end at any "
+    "point. 2-job scenarios: chain (submit 1, wait for its report, submit 2), burst (submit 1, submit "
+    "2), lag (chain with 3.5 poll intervals of think time before job 2). Thorough = every schedule "
+    "with <= 2 preemptions of the three scenarios per executor plus Hypothesis-drawn scripts over 3 "
+    "jobs (generated waits, think times, poll counts, FAILED statuses) with 1-4 preemptions; quick = "
+    "every <= 1-preemption schedule, every 2-preemption schedule whose second preemption falls while "
+    "a poller is in its exit window, a seeded sample of the other 2-preemption schedules, plus "
+    "Hypothesis. Oracle at quiescence (or after 60 poll intervals of virtual time): every submitted "
+    "job has exactly one done_job/reject_job, no reject_job(None, error), no exception escaping "
+    "submit(), no reported job still pending. A lost job is keyed by the history: the submission "
+    "tested the running flag / thread liveness in _start while a poller was between its failed loop "
+    "test and its end (known class), the Glue monitor left while the submission thread held the job "
+    "(second known class), anything else is 'unclassified'. Non-trivial = a step of a submission "
+    "executed while a poller thread was between its failed loop test and its end."
 )
 ASSUMPTIONS = [
     "thread switches happen at source-line boundaries of the watched executor functions; one line is atomic "
@@ -33,6 +39,8 @@ ASSUMPTIONS = [
     "one scheduler thread submits (as in redun's Scheduler); cloud jobs reach a final status after finitely many polls",
     "a timed sleep may end at any point relative to another thread's progress (virtual clock)",
     "arraying is disabled (min_array_size=0) so the batch executors submit singly; the arrayer itself is C11",
+    "an exception that escapes an already exiting monitor thread (RuntimeError from stop() joining a not yet "
+    "started replacement thread, seen for Docker/AWS Batch) is recorded as a label, not a violation: no job is lost",
 ]
 MANIFEST = {"technique": "stateless model checking of real threads (preemption-bounded schedule enumeration + "
                          "Hypothesis-drawn schedules) over sys.monitoring park points"}
@@ -340,8 +348,8 @@ def check(ctx: Ctx) -> None:
         else:
             for name in EXECUTORS:
                 for scen in SCENARIOS:
-                    explore_quick(ctx, name, scen, sample=60 if name != "AWSGlueExecutor" else 40)
-            ctx.given(gen_cases(), lambda c: check_case(ctx, c), 300)
+                    explore_quick(ctx, name, scen, sample=30 if name != "AWSGlueExecutor" else 20)
+            ctx.given(gen_cases(), lambda c: check_case(ctx, c), 200)
         ctx.coverage_extra["executors_covered"] = ", ".join(EXECUTORS)
     finally:
         release_adapters()
